@@ -621,6 +621,30 @@ def r4_pipeline_restarts_from_raw(ctx):
     r1_restart_from_raw(ctx)
 
 
+def r5_estimation_leaves_force_alone(ctx):
+    """correct_force_offset and correct_tip_offset hand the curve's own
+    force column to compute_poc: an estimator that edits its input (or a
+    view of it) rewrites a column the step does not own"""
+    steps = _steps(ctx)
+    n = 0
+    for ident, f in sorted(steps.items()):
+        ap = f.args.args[0].arg
+        for c in calls_in(f):
+            if (call_name(c) or "").endswith("compute_poc"):
+                a = _poc_arg(ctx, c, "force")
+                if a is not None and (base_of(Resolver(f).resolve(a)) == ap):
+                    n += 1
+    ctx.floor("steps that hand a column of the curve to compute_poc", n, 2)
+    from .c10 import r6_poc_leaves_force_alone
+    r6_poc_leaves_force_alone(ctx)
+
+
+def base_of(node):
+    while isinstance(node, (ast.Attribute, ast.Subscript)):
+        node = node.value
+    return node.id if isinstance(node, ast.Name) else None
+
+
 RULES = [
     ("C07-R1", "each step writes only the columns it owns", r1_ownership),
     ("C07-R2", "defining relation of every step", r2_relations),
@@ -629,4 +653,6 @@ RULES = [
     ("C07-R4", "every pipeline restarts from the recorded data (columns of "
      "an earlier pipeline's steps do not survive)",
      r4_pipeline_restarts_from_raw),
+    ("C07-R5", "contact point estimation does not edit the force column it "
+     "is handed", r5_estimation_leaves_force_alone),
 ]
